@@ -75,7 +75,7 @@ unsigned MEDDLY::unique_table::getSize() const
     if (parent->isForRelations()) {
         for(unsigned i = 1; i <= num_vars; i++){
             num += tables[i].getSize();
-            num += tables[-i].getSize();
+            num += tables[-int(i)].getSize();
         }
     }
     else {
@@ -93,7 +93,7 @@ unsigned MEDDLY::unique_table::getNumEntries() const
     if (parent->isForRelations()) {
         for (unsigned i = 1; i <= num_vars; i++) {
             num += tables[i].getNumEntries();
-            num += tables[-i].getNumEntries();
+            num += tables[-int(i)].getNumEntries();
         }
     }
     else {
@@ -111,7 +111,7 @@ unsigned MEDDLY::unique_table::getMemUsed() const
     if (parent->isForRelations()) {
         for (unsigned i = 1; i <= num_vars; i++) {
             num += tables[i].getMemUsed();
-            num += tables[-i].getMemUsed();
+            num += tables[-int(i)].getMemUsed();
         }
     }
     else {
@@ -139,8 +139,8 @@ void MEDDLY::unique_table::show(output &s) const
         for (unsigned i = 1; i <= num_vars; i++) {
             s << "Unique table (Var " << i << "):\n";
             tables[i].show(s);
-            s << "Unique table (Var " << -i << "):\n";
-            tables[-i].show(s);
+            s << "Unique table (Var " << -int(i) << "):\n";
+            tables[-int(i)].show(s);
         }
     }
     else {
